@@ -1719,6 +1719,10 @@ impl FnTr {
                     ("checked_mul", [(a, _)]) => { let b = int_bits(&tr).ok_or("checked_mul on a non-integer")?; Ok((format!("(Rs.checkedMul {b} {r} {a})"), format!("Option<{tr}>"))) }
                     ("checked_pow", [(a, _)]) => { let b = int_bits(&tr).ok_or("checked_pow on a non-integer")?; Ok((format!("(Rs.checkedPow {b} {r} {a})"), format!("Option<{tr}>"))) }
                     ("checked_add", [(a, _)]) => { let b = int_bits(&tr).ok_or("checked_add on a non-integer")?; Ok((format!("(Rs.checkedAdd {b} {r} {a})"), format!("Option<{tr}>"))) }
+                    ("saturating_sub", [(a, _)]) if int_bits(&tr).is_some() => Ok((format!("({r} - {a})"), tr)),
+                    ("saturating_add", [(a, _)]) if int_bits(&tr).is_some() => Ok((format!("(Nat.min ({r} + {a}) (2^{} - 1))", int_bits(&tr).unwrap()), tr)),
+                    ("saturating_mul", [(a, _)]) if int_bits(&tr).is_some() => Ok((format!("(Nat.min ({r} * {a}) (2^{} - 1))", int_bits(&tr).unwrap()), tr)),
+                    ("unwrap_or", [(a, _)]) if tr.starts_with("Option<") => Ok((format!("(Option.getD {r} {a})"), opt_inner(&tr))),
                     ("min", [(a, _)]) => Ok((format!("(Nat.min {r} {a})"), tr)),
                     ("max", [(a, _)]) => Ok((format!("(Nat.max {r} {a})"), tr)),
                     ("is_zero", []) => Ok((format!("({r} = 0)"), "bool".into())),
@@ -1753,6 +1757,7 @@ impl FnTr {
                     (["u64", "from_be_bytes"], [(a, _)]) => Ok((format!("(Rs.fromBe {a})"), "u64".into())),
                     (["Some"], [(a, t)]) | (["Ok"], [(a, t)]) => Ok((format!("(some {a})"), format!("Option<{t}>"))),
                     ([t, "try_from"], [(a, _)]) if int_bits(t).is_some() => Ok((format!("(Rs.tryFrom {} {a})", int_bits(t).unwrap()), format!("Option<{t}>"))),
+                    ([t, "from"], [(a, ta)]) if int_bits(t).is_some() && int_bits(ta).map(|b| b <= int_bits(t).unwrap()).unwrap_or(false) => Ok((a.clone(), t.to_string())),
                     (["Duration", "new"], [(a, _), (b, _)]) => Ok((format!("(Rs.durationNew {a} {b})"), "Duration".into())),
                     (["Duration", "from_nanos"], [(a, _)]) => Ok((a.clone(), "Duration".into())),
                     ([f], _) if self.fns.contains_key(*f) => {
